@@ -940,6 +940,36 @@ def gen_traj(rng, n):
             dict(cols=list(util.TRAJECTORY_ERROR_COLS), t=t, rows=errs))
 
 
+def antimeridian_trajs(rng):
+    """states / trajectory tables whose longitude is within a few east-error magnitudes of +-180 deg on both
+    sides (east errors of both signs, several latitudes), rows that cross the antimeridian, and longitudes
+    outside [-180, 180] (0..360 convention, > 180 as produced by an eastward run): compute_state_difference
+    subtracts longitudes as plain numbers, so perturb_pva must not re-wrap them"""
+    from pyins import util
+    out = []
+    for lat in (-60.0, 0.0, 35.5, 75.0):
+        deg = 2.0 / (111e3 * math.cos(math.radians(lat)))        # ~ 2 m east in degrees
+        lons = [180.0, -180.0, 180.0 - 0.25 * deg, -180.0 + 0.25 * deg, 180.0 - deg, -180.0 + deg,
+                180.0 - 3 * deg, -180.0 + 3 * deg, 180.0 + 0.5 * deg, -180.0 - 0.5 * deg,
+                181.5, 270.0, 359.99999, 360.0 + deg, -200.0]
+        for lon0 in lons:
+            for sgn in (1.0, -1.0):
+                n = 3
+                t = [i * 0.5 for i in range(n)]
+                step = rng.choice([0.0, 0.4 * deg, -0.4 * deg])       # rows may cross the antimeridian
+                rows, errs = [], []
+                for i in range(n):
+                    rows.append([lat + 1e-5 * i, lon0 + step * (i - 1), rng.uniform(0, 3000),
+                                 rng.uniform(-20, 20), rng.uniform(-20, 20), rng.uniform(-3, 3),
+                                 rng.uniform(-40, 40), rng.uniform(-40, 40), rng.uniform(-180, 180)])
+                    errs.append([rng.uniform(-2, 2), sgn * rng.uniform(0.5, 2.0), rng.uniform(-2, 2),
+                                 rng.uniform(-.2, .2), rng.uniform(-.2, .2), rng.uniform(-.2, .2),
+                                 rng.uniform(-.03, .03), rng.uniform(-.03, .03), rng.uniform(-.03, .03)])
+                out.append((dict(cols=list(util.TRAJECTORY_COLS), t=t, rows=rows),
+                            dict(cols=list(util.TRAJECTORY_ERROR_COLS), t=t, rows=errs)))
+    return out
+
+
 def statement_tests(r, rng, n, count=None):
     """run the property's statements on the implementation; returns the list of failures"""
     fails = []
@@ -956,6 +986,8 @@ def statement_tests(r, rng, n, count=None):
             add(kind, [_fail(f"{kind}: implementation raised {type(e).__name__}: {e}", None, kind=kind,
                              args=json.loads(json.dumps(args, default=str)))])
 
+    for tr, er in antimeridian_trajs(rng):
+        guarded('perturb', st_perturb, tr, er)
     for a, b in wrap_pairs(rng):
         guarded('range', st_range, a, b)
         guarded('antisym', st_antisym, a, b)
